@@ -182,6 +182,14 @@ CHECKS = [
              "the field's entries, its public accessors and makeOp/Adder/GaussianEnergy built from it are unchanged for ALL entry "
              "values and written values.",
      "design_ref": "DESIGN.md 4/C07"},
+    {"property_id": "C22", "engine": "A", "category": "other", "technique": "symbolic execution of the real nifty.cl sample-list and sampled-KL code on every task of a simulated synchronous MPI world (task and sample counts = z3 integers concretised by solver-decided forking) over fields of z3 reals that carry their floating-point operation tree: z3 refutes any difference from the single-process result for ALL values, identity of operation trees decides bit-identity; plus a concrete differential run of the real draw_samples per explored configuration",
+     "note": "Bounds: <= 3 tasks / 4 samples quick, <= 7 tasks / 8 samples thorough, 2-3 field entries. mpi4py replaced by the C23 world model. The draw_samples part is a concrete float64 differential run (not solver-decided) and is labelled so in the evidence. Whole optimize_kl runs are outside the claim.",
+     "text": "Bounded symbolic verification: for every feasible (tasks, samples, mirrored or not; more tasks than samples included) each "
+             "task's n_samples, average(), average(op), sample_stat(op), iterator(op) sequence and SampledKLEnergy value, gradient "
+             "and metric action equal the single-process results for ALL field values and are computed by the same operation tree "
+             "(bit-identical); draw_samples (linear and geometric, real CG) yields the bit-identical sample list and random state "
+             "on 1..T tasks.",
+     "design_ref": "DESIGN.md 4/C22"},
 ]
 
 ALL = [f"C{i:02d}" for i in range(1, 37)]
